@@ -17,7 +17,7 @@ LEMMAS = {}
 class Contract:
     def __init__(self, qualname, params=None, requires=None, ensures=None, raises=None, raises_any=False, modifies=(),
                  returns=None, invariants=None, receivers=None, serves=(), inline=False, assumed=False, note="",
-                 variants=None, fresh_result=False, total=False, frame_only=False, fresh_params=(), inline_at_calls=False, init_fields=None, param_names=None, result_aliases=None, witnesses=None, uses_interfaces=None, min_timeout_ms=0):
+                 variants=None, fresh_result=False, total=False, frame_only=False, fresh_params=(), inline_at_calls=False, init_fields=None, param_names=None, result_aliases=None, witnesses=None, uses_interfaces=None, min_timeout_ms=0, fuel=False):
         self.qualname = qualname
         self.params = params or {}
         self.requires, self.ensures = requires, ensures
@@ -37,6 +37,7 @@ class Contract:
         self.inline_at_calls = inline_at_calls
         self.init_fields = init_fields or {}     # __init__ contracts: attributes the call creates on `self`
         self.result_aliases = result_aliases or {}   # result field -> parameter whose object it is (identity)
+        self.fuel = fuel                # send every recursive helper function by bounded unfolding (pyvc/specfun.py)
         self.min_timeout_ms = min_timeout_ms          # per-obligation solver budget this contract needs (also in the quick tier)
         self.uses_interfaces = uses_interfaces or {}   # method name -> interface key, for calls on receivers of unknown class
         self.witnesses = witnesses               # () -> [native argument dicts] tried on the real code when a counter-model
